@@ -587,10 +587,96 @@ def r_state(c):
         "every mapper instance shares it: results cached for one graph are returned "
         "for another (or ids of dead objects are hit)")
 
+SHARED_OR_REVIEWED = {
+    "codegen.CodeGenPreprocessor.__init__:kernels_seen":
+        "no caller in the package passes kernels_seen (preprocess() creates the mapper "
+        "without it, and the mapper has no clone_for_callee handing it on): the idiom "
+        "can only drop a still-empty dict an external caller wanted to share",
+}
+
+
+def r_shared_or(c):
+    """state handed to a constructor in order to be SHARED (visited sets, caches a
+    clone passes on) must be kept even while it is still empty: `param or set()`
+    replaces an empty shared container by a private one, and what the clone
+    records is then invisible to the mapper that created it"""
+    from pta.rules.common import _is_mutable_display
+    m = c.model
+    mods = [x for x in m.modules if x.startswith("pytato.transform")
+            or x in ("pytato.analysis", "pytato.codegen", "pytato.distributed.partition")]
+    n = 0
+    for mi, fd in m.all_functions(modules=mods):
+        if fd.name != "__init__":
+            continue
+        params = {a.arg for a in fd.args.args + fd.args.kwonlyargs}
+        n += 1
+        qn = m.qualname(fd).replace("pytato.", "", 1)
+        for st in ast.walk(fd):
+            if not isinstance(st, (ast.Assign, ast.AnnAssign)) or st.value is None:
+                continue
+            tg = st.targets[0] if isinstance(st, ast.Assign) else st.target
+            if not (isinstance(tg, ast.Attribute) and ast.unparse(tg.value) == "self"):
+                continue
+            v = st.value
+            if isinstance(v, ast.BoolOp) and isinstance(v.op, ast.Or) and len(v.values) == 2 \
+                    and isinstance(v.values[0], ast.Name) and v.values[0].id in params \
+                    and _is_mutable_display(v.values[1]):
+                key = f"{qn}:{v.values[0].id}"
+                if key in SHARED_OR_REVIEWED:
+                    c.exempt("R13-STATE", qn, f"keeps-shared-container:{v.values[0].id}",
+                             m.loc(mi, st), SHARED_OR_REVIEWED[key])
+                else:
+                    c.violation("R13-STATE", qn, f"keeps-shared-container:{v.values[0].id}",
+                                m.loc(mi, st),
+                                f"`{m.frag(v, 50)}`: an EMPTY container passed in (the shared "
+                                "visited set / cache of the mapper that creates a clone) is "
+                                "falsy and is replaced by a private one, so the clone no "
+                                "longer records into the shared one: function bodies are "
+                                "visited once per call site")
+    if n < 15:
+        raise AnalysisError(f"only {n} mapper constructors scanned (floor 15)")
+
+
+def r_visit_tables(c):
+    """in every cached walker the table a key is looked up in is the table it is
+    added to, and arrays and function definitions have tables of their own"""
+    m = c.model
+    from pta.pat import find
+    n = 0
+    tables = {}
+    for q in [CWALK] + m.subclasses(CWALK, strict=True):
+        ci = m.classes[q]
+        for mn in ("rec", "rec_function_definition"):
+            fd = ci.methods.get(mn)
+            if fd is None:
+                continue
+            n += 1
+            looks = find(fd, "if $k in self.$t:\n    return")
+            adds = find(fd, "self.$t.add($k)")
+            ok = len(looks) == 1 and len(adds) == 1 and looks[0]["$t"] == adds[0]["$t"] \
+                and looks[0]["$k"] == adds[0]["$k"]
+            c.check(ok, "R13-ONCE", f"{short(q)}.{mn}", "looked-up-and-added-in-one-table",
+                    m.loc(ci.module, fd),
+                    f"the key is looked up in {[l['$t'] for l in looks]} but added to "
+                    f"{[a['$t'] for a in adds]}: a visited object is never found again and is "
+                    "walked once per path (function definitions once per call site)")
+            if ok:
+                tables.setdefault(q, {})[mn] = looks[0]["$t"]
+    for q, t in tables.items():
+        if len(t) == 2:
+            c.check(t["rec"] != t["rec_function_definition"], "R13-ONCE", short(q),
+                    "separate-tables-for-arrays-and-functions",
+                    m.loc(m.classes[q].module, m.classes[q].node),
+                    "arrays and function definitions share one visited table (their keys "
+                    "can coincide)")
+    if n < 2:
+        raise AnalysisError(f"only {n} cached walker rec methods found")
+
+
 SPEC = Spec(
     prop="C13",
     rules=[r_children, r_children_overrides, r_once, r_key, r_collision, r_clone,
-           r_eq_memo, r_state],
+           r_eq_memo, r_state, r_shared_or, r_visit_tables],
     floors={"R13-CHILDREN": 250, "R13-ONCE": 14, "R13-KEY": 20,
             "R13-COLLISION": 8, "R13-DOUBLE-CACHE": 8, "R13-CHILDREN-OVR": 20,
             "R13-CLONE": 12, "R13-EQ-MEMO": 25, "R13-STATE": 8},
